@@ -111,6 +111,12 @@ def list_desc(e, fi, env=None, _depth=0):
         return None
     if isinstance(e, ast.Subscript) and norm(e.value).startswith("self.") and not isinstance(e.slice, ast.Slice):
         return ListDesc(norm(e))
+    if isinstance(e, ast.IfExp):
+        # both arms must describe the same ordered list (one of them may cut it)
+        a, b = list_desc(e.body, fi, env, _depth + 1), list_desc(e.orelse, fi, env, _depth + 1)
+        if a is None or b is None or (a.key, a.desc, a.stable_reversed, a.base) != (b.key, b.desc, b.stable_reversed, b.base):
+            return None
+        return a
     if isinstance(e, ast.Call):
         fn = norm(e.func)
         if fn == "sorted" and e.args:
@@ -200,6 +206,12 @@ def flow_list(fi, var, upto=None, skip_window_steps=False):
         if upto is not None and st.lineno >= upto:
             break
         env = {var: d} if d is not None else {}
+        # another list local that is itself built in several steps (limited = events[:n] after events was sorted / filtered)
+        for nm in {x.id for x in ast.walk(st.value) if isinstance(x, ast.Name) and x.id != var and x.id not in fi.params}:
+            if len([y for y in local_defs(fi, nm) if isinstance(y, ast.Assign)]) > 1:
+                sub, _ = flow_list(fi, nm, upto=st.lineno, skip_window_steps=skip_window_steps)
+                if sub is not None:
+                    env[nm] = sub
         nd = list_desc(st.value, fi, env)
         if nd is None and skip_window_steps and d is not None and any(g[1] for g in _enclosing_guards(st, fi)):
             continue  # a step that only runs when a window edge is given: irrelevant to the window-less read
@@ -278,7 +290,14 @@ def order_rule(prog, rep, rule="ORDER", windowless=False):
             rep.check(ok, rule, fi.short, "sort", f"sorted by {d.key} {'descending' if d.desc else 'ascending'}", f"events are sorted by {d.key} {'descending' if d.desc else 'ascending'}, not by timestamp descending", fi.loc(ret[0]), expected="timestamp descending", found=f"{d.key} {'descending' if d.desc else 'ascending'}")
             # slice after sort and after filters
             g = cfg_of(fi)
-            slices = [st for st, _ in steps if isinstance(st.value, ast.Subscript) and isinstance(st.value.slice, ast.Slice) and st.value.slice.upper is not None]
+            def _has_limit_slice(v):
+                return any(isinstance(x, ast.Subscript) and isinstance(x.slice, ast.Slice) and x.slice.upper is not None for x in ([v] + ([v.body, v.orelse] if isinstance(v, ast.IfExp) else [])))
+
+            slices = [st for st, _ in steps if _has_limit_slice(st.value)]
+            if not slices:
+                # the limiting slice may sit in a step of another list local the result is built from
+                for nm in {x.id for st, _ in steps for x in ast.walk(st.value) if isinstance(x, ast.Name)}:
+                    slices += [d_ for d_ in local_defs(fi, nm) if isinstance(d_, ast.Assign) and _has_limit_slice(d_.value)]
             others = [st for st, _ in steps if st not in slices]
             if not slices:
                 rep.undecided("LIMIT", fi.short, "slice", "no limiting slice", fi.loc())
@@ -883,6 +902,14 @@ def limit_rule(prog, rep, rule="LIMIT"):
             unbounded = {g.node_of(d) for d in local_defs(fi, "limit") if isinstance(d, ast.Assign) and norm(d.value) in ("sys.maxsize", "None", "len(events)")}
             r1 = g.reach_filtered(g.entry, lambda u, v, lab: sign(lab) != "nonneg" and v not in unbounded)
             okn = sn not in r1
+            # the slice may also be one arm of a conditional expression that tests the sign
+            x_, pr_ = slices[-1], parent(slices[-1])
+            while pr_ is not None and not isinstance(pr_, ast.stmt):
+                if isinstance(pr_, ast.IfExp):
+                    arm = True if any(x_ is y for y in ast.walk(pr_.body)) else (False if any(x_ is y for y in ast.walk(pr_.orelse)) else None)
+                    if arm is not None and sign(("cond", pr_.test, arm)) == "nonneg":
+                        okn = True
+                x_, pr_ = pr_, parent(pr_)
             rep.check(okn, rule, fi.short, "negative limit", "limit < 0 never reaches [:limit] as it is (re-bound to an unbounded value, or the slice is skipped)", "a negative limit reaches events[:limit] unchanged (Python drops elements from the end) or is not handled: 'negative -> all' is broken", fi.loc(slices[0]))
             rets_ = [n.id for n in g.nodes if n.kind == "stmt" and isinstance(n.ast, ast.Return) and not (isinstance(n.ast.value, ast.List) and not n.ast.value.elts)]
             r2 = g.reach_filtered(g.entry, lambda u, v, lab: sign(lab) != "neg" and v != sn)
